@@ -90,6 +90,11 @@ func errUseRule(c *Ctx, r *Report, rule string, fns []*ssa.Function, target func
 			}
 			r.Check(!disc, rule, cons+" is used", "the error result is read (tested, returned, wrapped or reported)",
 				"the error result of "+what+" is discarded: a failure of this step goes unnoticed and the operation reports success", c.Pos(in.Pos()))
+			if call, isCall := in.(*ssa.Call); isCall && !disc {
+				if p := errorLostOnSomePath(fn, call); p != nil {
+					r.Bad(rule, cons+" is examined on every path", "the error of "+what+" is overwritten or dropped on a path before anything looks at it (e.g. a later assignment to the same variable): a failure of this step goes unnoticed: "+strings.Join(c.pathString(p), " -> "), c.Pos(in.Pos()))
+				}
+			}
 		})
 	}
 	return n
